@@ -3129,6 +3129,12 @@ func (dsc *dataStoreCommand) sort(sourceKeyName, byPattern, destKeyName string, 
 	}
 
 	if destKeyName != "" {
+		// the result replaces the destination, whatever it held; an empty result deletes it
+		dsc.ds.data.remove(destKeyName)
+		if len(a) == 0 {
+			output.data = respInt(0)
+			return
+		}
 		list := dsc.newListUnlocked(destKeyName)
 
 		for _, element := range a {
